@@ -40,101 +40,42 @@ theorem elementFull_eq (sh : List Nat) (inds : List Int) :
   rw [← map_flat_allIdx sh, List.map_map]
   rfl
 
-/-- The hypothesis `quiet` holds for "no view" on every well-formed selection. -/
-theorem quiet_none (sh : List Nat) : ∀ st : State, Spec.stateWf sh st = true → st.quiet sh .none = true
-  | .roiChunked _ _, hw => by
-    simp only [Spec.stateWf] at hw
-    simp only [State.quiet, viewPoints]
-    simpa using hw
-  | .loop1d _ _, hw => by
-    simp only [Spec.stateWf, beq_iff_eq] at hw
-    simp only [State.quiet, viewPoints]
-    match sh, hw with
-    | [_], _ => rfl
-  | .and a b, hw => by
-    simp only [Spec.stateWf, Bool.and_eq_true] at hw
-    simp only [State.quiet, quiet_none sh a hw.1, quiet_none sh b hw.2, Bool.and_self]
-  | .or a b, hw => by
-    simp only [Spec.stateWf, Bool.and_eq_true] at hw
-    simp only [State.quiet, quiet_none sh a hw.1, quiet_none sh b hw.2, Bool.and_self]
-  | .xor a b, hw => by
-    simp only [Spec.stateWf, Bool.and_eq_true] at hw
-    simp only [State.quiet, quiet_none sh a hw.1, quiet_none sh b hw.2, Bool.and_self]
-  | .inv a, hw => by
-    simp only [Spec.stateWf] at hw
-    simp only [State.quiet, quiet_none sh a hw]
-  | .base, _ => rfl
-  | .pred _ _, _ => rfl
-  | .pred2 _ _ _, _ => rfl
-  | .table _, _ => rfl
-  | .roiPix _ _, _ => rfl
-  | .sliceSt _, _ => rfl
-  | .unrelated, _ => rfl
-  | .maskSame _, _ => rfl
-  | .maskAxes _ _ _, _ => rfl
-  | .element _, _ => rfl
-
 /-- `state.to_mask(data, view)` is the gather of the selection's membership test, for every
-selection class (and every Boolean combination), every shape and every positive-step view that does
-not hit one of the two listed loud failures. -/
+selection class (and every Boolean combination), every shape and every positive-step view. -/
 theorem mask_gather (sh : List Nat) (v : View) (hv : v.posStep = true) : ∀ st : State,
-    Spec.stateWf sh st = true → st.quiet sh v = true →
+    Spec.stateWf sh st = true →
     Impl.mask sh st v = gather sh (Spec.holds sh st) v
-  | .base, _, _ => rfl
-  | .unrelated, _, _ => rfl
-  | .table f, _, _ => rfl
-  | .pred a p, hw, _ => by
+  | .base, _ => rfl
+  | .unrelated, _ => rfl
+  | .table f, _ => rfl
+  | .pred a p, hw => by
     simp only [Spec.stateWf] at hw
     simp only [Impl.mask, Spec.holds, attr_gather sh a hw v]
     exact (gather_comp sh (Spec.attrAt sh a) p v).symm
-  | .pred2 a b p, hw, _ => by
+  | .pred2 a b p, hw => by
     simp only [Spec.stateWf, Bool.and_eq_true] at hw
     simp only [Impl.mask, Spec.holds, attr_gather sh a hw.1 v, attr_gather sh b hw.2 v]
     exact (gather_zip sh (Spec.attrAt sh a) (Spec.attrAt sh b) p v).symm
-  | .roiPix axes roi, _, _ => by
+  | .roiPix axes roi, _ => by
     simp only [Impl.mask, Spec.holds]
     exact roiPix_gather sh axes roi v
-  | .roiChunked axes roi, _, hq => by
+  | .roiChunked axes roi, _ => by
     simp only [Impl.mask, Spec.holds]
-    simp only [State.quiet] at hq
-    cases hvp : viewPoints sh v with
-    | error e => simp only [gather, hvp]
-    | ok sp =>
-      obtain ⟨shape, pts⟩ := sp
-      rw [hvp] at hq
-      simp only [Bool.not_eq_true'] at hq
-      simp only [hq, Bool.false_eq_true, if_false]
-      exact roiPix_gather sh axes roi v
-  | .loop1d ie f, _, hq => by
-    simp only [Impl.mask, Spec.holds]
-    simp only [State.quiet] at hq
-    cases hvp : viewPoints sh v with
-    | error e => simp only [gather, hvp]
-    | ok sp =>
-      obtain ⟨shape, pts⟩ := sp
-      rw [hvp] at hq
-      simp only [gather, hvp]
-      match shape, hq with
-      | [], hq =>
-        simp only [Bool.and_eq_true, Bool.not_eq_true'] at hq
-        simp only [hq.1, hq.2, if_true, Bool.false_eq_true, if_false]
-      | [_], _ => rfl
-      | n :: _ :: _, hq =>
-        simp only [beq_iff_eq] at hq
-        simp only [hq, if_true]
-  | .sliceSt sls, hw, _ => by
+    exact roiPix_gather sh axes roi v
+  | .loop1d _ f, _ => rfl
+  | .sliceSt sls, hw => by
     simp only [Spec.stateWf, Bool.and_eq_true, beq_iff_eq] at hw
     simp only [Impl.mask, Spec.holds]
     exact sliceMask_gather sh sls v hw.1 hw.2 hv
-  | .maskSame m, hw, _ => by
+  | .maskSame m, hw => by
     simp only [Spec.stateWf, Bool.and_eq_true, Bool.not_eq_true'] at hw
     simp only [Impl.mask, Spec.holds]
     exact gather_noneToSlice sh hw.2 _ v
-  | .maskAxes axes msh m, hw, _ => by
+  | .maskAxes axes msh m, hw => by
     simp only [Spec.stateWf, Bool.not_eq_true'] at hw
     simp only [Impl.mask, Spec.holds]
     exact gather_noneToSlice sh hw _ v
-  | .element inds, hw, _ => by
+  | .element inds, hw => by
     simp only [Spec.stateWf] at hw
     simp only [Impl.mask, hw, if_true, elementFull_eq]
     cases v with
@@ -143,60 +84,29 @@ theorem mask_gather (sh : List Nat) (v : View) (hv : v.posStep = true) : ∀ st 
     | basic items => exact index_tabulate sh _ _
     | arrays s items => exact index_tabulate sh _ _
     | mask m => exact index_tabulate sh _ _
-  | .and a b, hw, hq => by
+  | .and a b, hw => by
     simp only [Spec.stateWf, Bool.and_eq_true] at hw
-    simp only [State.quiet, Bool.and_eq_true] at hq
-    simp only [Impl.mask, Spec.holds, mask_gather sh v hv a hw.1 hq.1, mask_gather sh v hv b hw.2 hq.2]
+    simp only [Impl.mask, Spec.holds, mask_gather sh v hv a hw.1, mask_gather sh v hv b hw.2]
     exact (gather_zip sh _ _ (· && ·) v).symm
-  | .or a b, hw, hq => by
+  | .or a b, hw => by
     simp only [Spec.stateWf, Bool.and_eq_true] at hw
-    simp only [State.quiet, Bool.and_eq_true] at hq
-    simp only [Impl.mask, Spec.holds, mask_gather sh v hv a hw.1 hq.1, mask_gather sh v hv b hw.2 hq.2]
+    simp only [Impl.mask, Spec.holds, mask_gather sh v hv a hw.1, mask_gather sh v hv b hw.2]
     exact (gather_zip sh _ _ (· || ·) v).symm
-  | .xor a b, hw, hq => by
+  | .xor a b, hw => by
     simp only [Spec.stateWf, Bool.and_eq_true] at hw
-    simp only [State.quiet, Bool.and_eq_true] at hq
-    simp only [Impl.mask, Spec.holds, mask_gather sh v hv a hw.1 hq.1, mask_gather sh v hv b hw.2 hq.2]
+    simp only [Impl.mask, Spec.holds, mask_gather sh v hv a hw.1, mask_gather sh v hv b hw.2]
     exact (gather_zip sh _ _ (fun x y => x != y) v).symm
-  | .inv a, hw, hq => by
+  | .inv a, hw => by
     simp only [Spec.stateWf] at hw
-    simp only [State.quiet] at hq
-    simp only [Impl.mask, Spec.holds, mask_gather sh v hv a hw hq]
+    simp only [Impl.mask, Spec.holds, mask_gather sh v hv a hw]
     exact (gather_comp sh _ (!·) v).symm
 
 /-- **Views of membership masks**: `get_mask(state, view)` equals the full-size mask indexed by the
 view — same shape, same values, same errors. -/
 theorem mask_view (sh : List Nat) (st : State) (v : View) (hw : Spec.stateWf sh st = true)
-    (hv : v.posStep = true) (hq : st.quiet sh v = true) :
+    (hv : v.posStep = true) :
     Impl.mask sh st v = Spec.viewOfRes (Impl.mask sh st .none) v := by
-  rw [mask_gather sh v hv st hw hq, mask_gather sh .none rfl st hw (quiet_none sh st hw), gather_none]
+  rw [mask_gather sh v hv st hw, mask_gather sh .none rfl st hw, gather_none]
   exact (index_tabulate sh _ v).symm
-
-/-- Selections without a loud leaf are quiet under every view. -/
-theorem plain_quiet (sh : List Nat) (v : View) : ∀ st : State, st.plain = true → st.quiet sh v = true
-  | .and a b, h => by
-    simp only [State.plain, Bool.and_eq_true] at h
-    simp [State.quiet, plain_quiet sh v a h.1, plain_quiet sh v b h.2]
-  | .or a b, h => by
-    simp only [State.plain, Bool.and_eq_true] at h
-    simp [State.quiet, plain_quiet sh v a h.1, plain_quiet sh v b h.2]
-  | .xor a b, h => by
-    simp only [State.plain, Bool.and_eq_true] at h
-    simp [State.quiet, plain_quiet sh v a h.1, plain_quiet sh v b h.2]
-  | .inv a, h => by
-    simp only [State.plain] at h
-    simp [State.quiet, plain_quiet sh v a h]
-  | .roiChunked _ _, h => by simp [State.plain] at h
-  | .loop1d _ _, h => by simp [State.plain] at h
-  | .base, _ => rfl
-  | .pred _ _, _ => rfl
-  | .pred2 _ _ _, _ => rfl
-  | .table _, _ => rfl
-  | .roiPix _ _, _ => rfl
-  | .sliceSt _, _ => rfl
-  | .unrelated, _ => rfl
-  | .maskSame _, _ => rfl
-  | .maskAxes _ _ _, _ => rfl
-  | .element _, _ => rfl
 
 end GlueVerif.Lemmas.C04
